@@ -288,9 +288,14 @@ class HTTP11Connection(ConnectionInterface):
         # If the HTTP connection is idle but the socket is readable, then the
         # only valid state is that the socket is about to return b"", indicating
         # a server-initiated disconnect.
+        #
+        # The state is looked at again after the socket: with threads, another
+        # thread may start a request on the connection in between, and the
+        # response to it must not be mistaken for a disconnect.
         server_disconnected = (
             self._state == HTTPConnectionState.IDLE
             and self._network_stream.get_extra_info("is_readable")
+            and self._state == HTTPConnectionState.IDLE
         )
 
         return keepalive_expired or server_disconnected
